@@ -27,6 +27,10 @@ class Lengths:
         if not isinstance(t, tuple) or not t or depth > 40:
             return ("len", t)
         k = t[0]
+        if k == "field" and t[1][0] == "struct":
+            for f_, v_ in t[1][2]:
+                if f_ == t[2]:
+                    return self.lenof(v_, depth + 1)
         if k in ("vec", "array"):
             return ("lit", terms.Int(len(t[1])))
         if k == "collect":
